@@ -195,6 +195,24 @@ pub fn run(line: &str) -> String {
                 h1.finish() == h2.finish()
             )
         }
+        // index kernels on a slice of zero-sized elements (any length up to isize::MAX costs nothing)
+        "@pyindex" => {
+            let xs = vec![(); w[1].parse::<usize>().unwrap()];
+            match noulith::pythonic_index_isize(&xs, w[2].parse::<isize>().unwrap()) {
+                Ok(i) => format!("Ok({})", i),
+                Err(_) => "Err".to_string(),
+            }
+        }
+        "@pyclamp" => {
+            let xs = vec![(); w[1].parse::<usize>().unwrap()];
+            format!("{}", noulith::clamped_pythonic_index(&xs, w[2].parse::<isize>().unwrap()))
+        }
+        "@pyslice" => {
+            let xs = vec![(); w[1].parse::<usize>().unwrap()];
+            let p = |s: &str| if s == "_" { None } else { Some(s.parse::<isize>().unwrap()) };
+            let (a, b) = noulith::pythonic_slice(&xs, p(w[2]), p(w[3]));
+            format!("({}, {})", a, b)
+        }
         _ => panic!("unknown kernel command"),
     }
 }
